@@ -1,4 +1,4 @@
-import PolyVerif.Lemmas.LocationRep
+import PolyVerif.Lemmas.LocationStrict
 /-
 C02 — Feature sequences follow INSDC location semantics.
 
@@ -119,6 +119,32 @@ theorem build_parsed_is_insdc_partial (l : Loc) (n : Nat) (h : InRange l n) (ha 
       (∀ q, denote l' q = denote l q) ∧ ends l' = ends l := by
   obtain ⟨l', h1, h2, h3⟩ := build_is_insdc_partial (pembed l) l n (rep_pembed l ha) h ha hg
   exact ⟨pembed l, l', parsed_structure l n h ha, h1, h2, h3⟩
+
+/-- The known-finding class is exact: for EVERY location with a 3′-partial span — any structure
+representing it — the written text is rejected by the strict recogniser (it stops in front of the
+misplaced `>`, and no enclosing production accepts a `>`).  So `NoGt` is the weakest hypothesis
+under which `build_is_insdc_partial` can hold. -/
+theorem build_3prime_exact (p : PLoc) (l : Loc) (n : Nat) (hp : Rep p l) (h : InRange l n) (ha : Arity l)
+    (hg : ¬ NoGt l) : insdcParse (buildLoc p) = none := by
+  have hg' : hasGt l = true := by
+    unfold NoGt at hg
+    cases hh : hasGt l
+    · exact absurd hh hg
+    · rfl
+  exact insdcParse_buildLoc_gt hp n h ha hg'
+
+/-- the written text is strictly valid INSDC exactly when there is no 3′-partial span -/
+theorem build_strict_iff (p : PLoc) (l : Loc) (n : Nat) (hp : Rep p l) (h : InRange l n) (ha : Arity l) :
+    (∃ l', insdcParse (buildLoc p) = some l') ↔ NoGt l := by
+  constructor
+  · rintro ⟨l', h1⟩
+    apply Classical.byContradiction
+    intro hg
+    rw [build_3prime_exact p l n hp h ha hg] at h1
+    cases h1
+  · intro hg
+    obtain ⟨l', h1, _⟩ := build_is_insdc_partial p l n hp h ha hg
+    exact ⟨l', h1⟩
 
 /-- known finding C02-writer-3prime: the 3′-partial span `3..>7` is written `3..7>`, which is
 not INSDC syntax -/
